@@ -190,75 +190,78 @@ theorem findMatchingKey_ambiguous {use alg : String} {keys : List JWK}
 
 theorem getKeyIDAndAlg_bridge (now : Int) (j : JWS) : GenC02.GetKeyIDAndAlg now j = Hand.GetKeyIDAndAlg j := by
   unfold GenC02.GetKeyIDAndAlg Hand.GetKeyIDAndAlg
-  cases j.Signatures <;> rfl
+  cases hs : j.Signatures <;> first | rfl | (simp only [GoX.loopCtl]; done) | go_leaf [GoX.loopCtl, Go.len, Go.HasLen.len, Go.index]
 
 theorem algToKeyType_bridge (now : Int) (k : JWK) (alg : String) : GenC02.algToKeyType now k.Key alg = Hand.algToKeyType k alg := by
   unfold GenC02.algToKeyType Hand.algToKeyType algFits JWK.Key c02AsRSA c02AsECDSA c02AsEd25519
-  rfl
+  first | rfl | go_leaf [Const.EdDSA]
 
-theorem fmk_tail (c : List JWK) :
-    (if (Go.len c == (1 : Int)) then (.ok (Go.index c (0 : Int)) : Go.R JWK)
-     else if decide (Go.len c > (1 : Int)) then .error "ErrKeyMultiple" else .error "ErrKeyNone") =
-    (match c with
-     | [k] => .ok k
-     | [] => .error "ErrKeyNone"
-     | _ => .error "ErrKeyMultiple") := by
-  match c with
-  | [] => rfl
-  | [k] => rfl
-  | a :: b :: t =>
-    have h1 : ¬ ((Go.len (a :: b :: t) == (1 : Int)) = true) := by
-      simp [Go.len, Go.HasLen.len]; omega
-    have h2 : decide (Go.len (a :: b :: t) > (1 : Int)) = true := by
-      simp [Go.len, Go.HasLen.len]; omega
-    rw [if_neg h1, if_pos h2]
+/-- the tail of `FindMatchingKey` (what it answers from the kid-less candidates once the loop is over), whatever its text:
+    closes `<tail on c> = match c with | [k] => .ok k | [] => ErrKeyNone | _ => ErrKeyMultiple` for a candidate list of
+    length 0, 1, ≥ 2 -/
+syntax "fmk_tail" : tactic
+macro_rules
+  | `(tactic| fmk_tail) => `(tactic| first
+      | rfl
+      | ((try simp only []); (repeat' split)
+         all_goals (first | rfl
+                          | (simp_all [Go.len, Go.HasLen.len, Go.index]; done)
+                          | (simp_all [Go.len, Go.HasLen.len, Go.index] <;> omega)
+                          | (simp [Go.len, Go.HasLen.len, Go.index] at * <;> omega))))
 
-theorem fmk_loop (now : Int) (kid use alg : String) (keys cands : List JWK) :
-    GoX.loopCtl (β := Go.R JWK) keys cands (fun validKeys k =>
-      (if (((k).Use != use) && ((k).Use != "")) then (GoX.Ctl.next validKeys)
-       else (if (!(GenC02.algToKeyType now (k).Key alg)) then (GoX.Ctl.next validKeys)
-       else (if (((k).KeyID == kid) && (kid != "")) then (GoX.Ctl.ret (.ok k))
-       else (if (((k).KeyID == "") || (kid == "")) then
-              let validKeys := (Go.append validKeys k);
-              (GoX.Ctl.next validKeys)
-            else (GoX.Ctl.next validKeys)))))) =
+/-- one round of `FindMatchingKey`'s loop in the words of the hand-written model (`Hand.fmkStep` from "nothing returned yet"):
+    an exact match leaves the function, anything else goes on with the candidates it leaves -/
+def fmkCtl (kid use alg : String) (validKeys : List JWK) (k : JWK) : GoX.Ctl (List JWK) (Go.R JWK) :=
+  match fmkStep kid use alg (none, validKeys) k with
+  | (some x, _) => .ret (.ok x)
+  | (none, c) => .next c
+
+/-- SEMANTIC bridge of the loop: ANY loop body that does, per key, what `fmkCtl` says makes the loop the fold of the
+    hand-written model.  The regenerated body is compared with `fmkCtl` pointwise by the shape-independent `go_leaf`
+    (`findMatchingKey_bridge`), so merged / reordered / inverted guards of the Go text that decide the same thing still pass. -/
+theorem fmk_loop (kid use alg : String) (keys cands : List JWK)
+    (f : List JWK → JWK → GoX.Ctl (List JWK) (Go.R JWK)) (hf : ∀ vk k, f vk k = fmkCtl kid use alg vk k) :
+    GoX.loopCtl (β := Go.R JWK) keys cands f =
     (match keys.foldl (fmkStep kid use alg) (none, cands) with
      | (some k, _) => .inl (.ok k)
      | (none, c) => .inr c) := by
   induction keys generalizing cands with
   | nil => rfl
   | cons x xs ih =>
-    simp only [GoX.loopCtl, List.foldl_cons, algToKeyType_bridge]
-    by_cases h1 : (x.Use != use && x.Use != "") = true
-    · have hs : fmkStep kid use alg (none, cands) x = (none, cands) := by simp only [fmkStep, h1, if_true]
-      rw [hs]; simp only [h1, if_true]; exact ih cands
-    · by_cases h2 : (!algToKeyType x alg) = true
-      · have hs : fmkStep kid use alg (none, cands) x = (none, cands) := by simp only [fmkStep, h1, h2, if_true, if_false, Bool.false_eq_true]
-        rw [hs]; simp only [h1, h2, if_true, if_false, Bool.false_eq_true]; exact ih cands
-      · by_cases h3 : (x.KeyID == kid && kid != "") = true
-        · have hs : fmkStep kid use alg (none, cands) x = (some x, cands) := by simp only [fmkStep, h1, h2, h3, if_true, if_false, Bool.false_eq_true]
-          rw [hs, fold_some]; simp only [h1, h2, h3, if_true, if_false, Bool.false_eq_true]
-        · by_cases h4 : (x.KeyID == "" || kid == "") = true
-          · have hs : fmkStep kid use alg (none, cands) x = (none, cands ++ [x]) := by simp only [fmkStep, h1, h2, h3, h4, if_true, if_false, Bool.false_eq_true]
-            rw [hs]; simp only [h1, h2, h3, h4, if_true, if_false, Bool.false_eq_true, Go.append]; exact ih (cands ++ [x])
-          · have hs : fmkStep kid use alg (none, cands) x = (none, cands) := by simp only [fmkStep, h1, h2, h3, h4, if_false, Bool.false_eq_true]
-            rw [hs]; simp only [h1, h2, h3, h4, if_false, Bool.false_eq_true]; exact ih cands
+    simp only [GoX.loopCtl, List.foldl_cons, hf, fmkCtl]
+    rcases hs : fmkStep kid use alg (none, cands) x with ⟨o, c⟩
+    cases o with
+    | some k => simp only [fold_some]
+    | none => exact ih c
+
+/-- what the regenerated loop body is compared with, spelled out (no `match` on a pair left) -/
+theorem fmkCtl_eq (kid use alg : String) (vk : List JWK) (k : JWK) :
+    fmkCtl kid use alg vk k =
+      if k.Use != use && k.Use != "" then .next vk
+      else if !algToKeyType k alg then .next vk
+      else if k.KeyID == kid && kid != "" then .ret (.ok k)
+      else if k.KeyID == "" || kid == "" then .next (vk ++ [k])
+      else .next vk := by
+  unfold fmkCtl fmkStep
+  simp only []
+  repeat' split
+  all_goals simp_all
 
 theorem findMatchingKey_bridge (now : Int) (kid use alg : String) (keys : List JWK) :
     GenC02.FindMatchingKey now kid use alg keys = Hand.FindMatchingKey kid use alg keys := by
   unfold GenC02.FindMatchingKey Hand.FindMatchingKey
   simp only []
-  rw [fmk_loop]
+  rw [fmk_loop kid use alg keys [] _ (by
+    intro vk k
+    rw [fmkCtl_eq]
+    simp only [algToKeyType_bridge, Go.append]
+    go_leaf)]
   rcases hf : List.foldl (fmkStep kid use alg) (none, []) keys with ⟨o, c⟩
   cases o with
   | some k => rfl
   | none =>
     simp only []
-    rw [fmk_tail]
-    match c with
-    | [] => rfl
-    | [k] => rfl
-    | _ :: _ :: _ => rfl
+    rcases c with _ | ⟨a, _ | ⟨b, t⟩⟩ <;> fmk_tail
 
 /-- `op.OpenIDKeySet.VerifySignature` (regenerated) on a storage that hands out `keys` is the published-key-set model
     (error texts aside: `CheckSignature` maps every error of `VerifySignature` to ErrSignatureInvalid) -/
